@@ -2,9 +2,19 @@ import SSVerif.Proofs.LexFlatNodes
 /-!
 # The converse inclusion: the lextree the code builds has no root-to-leaf path beyond those of the flat network
 
-Exact (two-sided) facts about the construction: an old pnode never gets a new parent (`ParSub`), an old pnode's context
-set is never touched by a later loop (`CtxSame`), the parents of a pnode are one pnode or the roots of one shared set
-(`ParInv`), the pnodes of the root chain are nobody's children.
+`Proofs/LexFlatPaths.lean` proves that every (arc, left context, right context) has its root-to-leaf path; `Proofs/LexFlatNodes.lean`
+that every pnode and context bit comes from a word arc.  Here: **every root-to-leaf path is the path of ONE word arc**
+(`build_paths_sound`, and `bridge_paths` in the flat model's terms).
+
+Exact (two-sided) facts about the construction, kept through every loop:
+* `Sd g0 a a'` — a step gives no pnode `< g0` a new parent or context bit, and changes its `sibling` only if it is a child;
+* `ParOf` — the parents of a pnode are none, or roots of ONE shared root set, or ONE pnode that has a parent itself; they are
+  fixed when the pnode is hooked (`newInternal_exact`, `attachRoots_exact`);
+* `RootNP` — the pnodes of the root chain are nobody's children;
+* `GroupS` / `LeafRec` — the roots of a shared set are word-initial pnodes of the set's key; every leaf records its arc and, for a
+  multi-phone word, the chain of word-internal pnodes it hangs under (`PathK` of the completeness proof).
+`path_unique`: walking up from a leaf, a chain of parents that ends in a parentless pnode IS the recorded chain.  The paths of
+an earlier state are untouched by later states (`PathsSound.later`).
 -/
 namespace SSVerif.LexFlat
 open SSVerif.Search SSVerif.Hist
@@ -745,5 +755,691 @@ theorem phones_fold_x {g : Fsg} {li : LexIn} {tm : Nat → Nat} {s lid : Nat} {l
       phoneStep_x ctx h'.1.1.1 h'.1.1.2.1 h'.1.2 h'.2 hm hlne hkey hlid⟩)
   exact h.2
 
+
+/-! ### the loops that allocate roots (single-phone words, word-initial pnodes), exact part -/
+
+structure QX (a0 : Array PNode) (st : LcSt) : Prop where
+  sd : Sd a0.size a0 st.nodes
+  rootNP : RootNP st.nodes st.root
+  newNP : ∀ x, a0.size ≤ x → x < st.nodes.size → NoPar st.nodes x
+  fresh : (∀ p ∈ st.lcl, a0.size ≤ p) ∧ (∀ p ∈ st.lmap, a0.size ≤ p)
+
+theorem QX.bit {g : Fsg} {s : Nat} {a0 : Array PNode} {st : LcSt} (_h : LcInv g s a0 st) (hx : QX a0 st) {p : Nat} (hp : a0.size ≤ p) (c : Nat) :
+    QX a0 { st with nodes := addCtxt st.nodes p c } :=
+  ⟨hx.sd.trans (sd_addCtxt _ hp c), hx.rootNP.ctxt p c,
+   fun x h1 h2 => noPar_addCtxt p c (hx.newNP x h1 (by rw [size_addCtxt] at h2; exact h2)), hx.fresh⟩
+
+theorem QX.pushRoot {g : Fsg} {s : Nat} {a0 : Array PNode} {st : LcSt} (h : LcInv g s a0 st) (hx : QX a0 st) {n : PNode} (hn : n.succ = none)
+    (hs : n.sibling = st.root) : Sd a0.size a0 (st.nodes.push n) ∧ RootNP (st.nodes.push n) (some st.nodes.size) ∧
+      (∀ x, a0.size ≤ x → x < (st.nodes.push n).size → NoPar (st.nodes.push n) x) := by
+  refine ⟨hx.sd.trans ((sd_push h.inv hn).mono h.ext.1), hx.rootNP.pushRoot h.inv (fun y hy => (h.root y hy).1) hn hs, fun x h1 h2 => ?_⟩
+  rw [Array.size_push] at h2
+  by_cases hxe : x = st.nodes.size
+  · rw [hxe]; exact noPar_new h.inv hn
+  · exact noPar_push h.inv hn (hx.newNP x h1 (by omega))
+
+theorem singleStep_qx {g : Fsg} {li : LexIn} {s lid ci : Nat} {logp : Int} {a0 : Array PNode} (st : LcSt) (lc : Nat)
+    (h : LcInv g s a0 st) (hx : QX a0 st) : QX a0 (singleStep li s lid ci logp st lc) := by
+  unfold singleStep
+  simp only
+  split
+  · rename_i p hf
+    exact QX.bit h hx (hx.fresh.1 p (find?_spec hf).1) lc
+  · obtain ⟨h1, h2, h3⟩ := QX.pushRoot h hx (n := singleNode li s lid ci logp st.root lc) rfl rfl
+    refine ⟨h1, h2, h3, fun p hp => ?_, hx.fresh.2⟩
+    rcases List.mem_cons.1 hp with h4 | h4
+    · rw [h4]; exact h.ext.1
+    · exact hx.fresh.1 p h4
+
+theorem rootStep_qx {g : Fsg} {li : LexIn} {s ci rc : Nat} {a0 : Array PNode} (st : LcSt) (lc : Nat)
+    (h : LcInv g s a0 st) (hx : QX a0 st) : QX a0 (rootStep li s ci rc st lc) := by
+  unfold rootStep
+  simp only
+  split
+  · rename_i p hf
+    exact QX.bit h hx (hx.fresh.2 p (find?_spec hf).1) lc
+  · obtain ⟨h1, h2, h3⟩ := QX.pushRoot h hx (n := rootNode li s ci rc st.root lc) rfl rfl
+    refine ⟨h1.trans (sd_addCtxt _ h.ext.1 lc), h2.ctxt _ _, fun x h4 h5 => noPar_addCtxt _ _ (h3 x h4 (by rw [size_addCtxt] at h5; exact h5)),
+      fun p hp => ?_, fun p hp => ?_⟩
+    · rcases List.mem_cons.1 hp with h4 | h4
+      · rw [h4]; exact h.ext.1
+      · exact hx.fresh.1 p h4
+    · rcases List.mem_append.1 hp with h4 | h4
+      · exact hx.fresh.2 p h4
+      · rw [List.mem_singleton.1 h4]; exact h.ext.1
+
+/-! ### one arc, exact part -/
+
+/-- the exact facts about the pnodes of the state under construction -/
+structure SX (li : LexIn) (g : Fsg) (lcOf rcOf : Nat → List Nat) (s : Nat) (a0 : Array PNode) (w : Bld) : Prop where
+  sd : Sd a0.size a0 w.nodes
+  par : ∀ x, x < w.nodes.size → (ndOf w.nodes x).owner = s → ParOf w.glists w.nodes x
+  rootNP : RootNP w.nodes w.root
+  group : GroupS li lcOf s w.glists w.nodes
+  leaf : ∀ x, x < w.nodes.size → (ndOf w.nodes x).owner = s → (ndOf w.nodes x).leaf = true → LeafRec li g lcOf rcOf s w.glists w.nodes x
+
+/-- after a loop that only allocates parentless pnodes of kind `K` (non-leaves, or leaves with their record) -/
+theorem SX.quietLoop {li : LexIn} {g : Fsg} {lcOf rcOf : Nat → List Nat} {s : Nat} {a0 : Array PNode} {w0 : Bld} {K : PNode → Prop} {st : LcSt}
+    (hx : SX li g lcOf rcOf s a0 w0) (ha0 : a0.size ≤ w0.nodes.size) (gx : GX w0.glists w0.nodes) (hq : QX w0.nodes st) (hQ : Quiet w0.nodes st.nodes) (hG : Grow w0.nodes st.nodes)
+    (hL : LoopS K w0.nodes st.nodes)
+    (hK : ∀ x, w0.nodes.size ≤ x → x < st.nodes.size → K (ndOf st.nodes x) → NoPar st.nodes x → (ndOf st.nodes x).leaf = true →
+      LeafRec li g lcOf rcOf s w0.glists st.nodes x) :
+    SX li g lcOf rcOf s a0 { w0 with nodes := st.nodes, root := st.root } := by
+  refine ⟨hx.sd.trans (hq.sd.mono ha0), ?_, hq.rootNP, hx.group.step hG hq.sd (fun e he r hr => ⟨gx.lt e he r hr, gx.lt e he r hr⟩), ?_⟩
+  · intro x hxs hown
+    simp only at hxs hown ⊢
+    by_cases hlt : x < w0.nodes.size
+    · have hown' : (ndOf w0.nodes x).owner = s := by rw [← (core_fields (hG.stable x hlt)).1]; exact hown
+      exact (hx.par x hlt hown').step hlt hq.sd hQ.child
+    · exact Or.inl (hq.newNP x (by omega) hxs)
+  · intro x hxs hown hleaf
+    simp only at hxs hown hleaf ⊢
+    by_cases hlt : x < w0.nodes.size
+    · have hown' : (ndOf w0.nodes x).owner = s := by rw [← (core_fields (hG.stable x hlt)).1]; exact hown
+      have hleaf' : (ndOf w0.nodes x).leaf = true := by rw [← (core_fields (hG.stable x hlt)).2.1]; exact hleaf
+      exact (hx.leaf x hlt hown' hleaf').step hlt hlt hG hq.sd hQ.child gx.lt
+    · exact hK x (by omega) hxs (hL.new x (by omega) hxs) (hq.newNP x (by omega) hxs) hleaf
+
+theorem SX.consGroup {li : LexIn} {g : Fsg} {lcOf rcOf : Nat → List Nat} {s : Nat} {a0 : Array PNode} {nodes : Array PNode} {root : Option Nat} {gl : List GEntry}
+    (hx : SX li g lcOf rcOf s a0 { nodes := nodes, root := root, glists := gl }) (E : GEntry)
+    (hE : ∀ r ∈ E.list, RootS li (lcOf s) s E.ci E.rc (ndOf nodes r)) : SX li g lcOf rcOf s a0 { nodes := nodes, root := root, glists := E :: gl } := by
+  refine ⟨hx.sd, fun x h1 h2 => (hx.par x h1 h2).mono_gl (fun e he => List.mem_cons_of_mem _ he), hx.rootNP, ?_,
+    fun x h1 h2 h3 => (hx.leaf x h1 h2 h3).mono_gl (fun e he => List.mem_cons_of_mem _ he)⟩
+  intro e he r hr
+  rcases List.mem_cons.1 he with h1 | h1
+  · rw [h1] at hr ⊢; exact hE r hr
+  · exact hx.group e h1 r hr
+
+/-- a multi-phone word over a root set `lcl` that is among the sets `gl`, exact part -/
+theorem multi_sx {g : Fsg} {li : LexIn} {tm : Nat → Nat} {s lid : Nat} {lcl : List Nat} {lcOf rcOf : Nat → List Nat} {gl : List GEntry}
+    {a0 a1 : Array PNode} {root : Option Nat} (ctx : PhCtx g li tm s lid (li.word (g.link lid).wid.toNat) lcl gl a1) (inv : GInv g a1)
+    (hr : Ranked a1) (gx : GX gl a1) (hk : IntKind li tm s gl [] a1) {pred : Nat} (hpred : pred ∈ lcl)
+    (hkey : ∃ e ∈ gl, e.list = lcl ∧ e.ci = (li.word (g.link lid).wid.toNat).pron.headD 0 ∧ e.rc = (li.word (g.link lid).wid.toNat).pron.getD 1 0)
+    (hlid : lid ∈ stateArcs g s) (hrootv : ∀ y, root = some y → y < a1.size) (ha0 : a0.size ≤ a1.size)
+    (sx : SX li g lcOf rcOf s a0 { nodes := a1, root := root, glists := gl }) :
+    SX li g lcOf rcOf s a0 (Bld.mk (((List.range (li.word (g.link lid).wid.toNat).pron.length).drop 1).foldl
+        (phoneStep li s lid (li.word (g.link lid).wid.toNat) (g.link lid).logp (rcOf lid) lcl) { nodes := a1, pred }).nodes root gl) := by
+  obtain ⟨hG, hP⟩ := phones_fold (logp := (g.link lid).logp) (rclist := rcOf lid) ctx inv hr gx hk hpred
+  have hX := phones_fold_x (lcOf := lcOf) (rcOf := rcOf) ctx inv hr gx hk hpred hkey hlid sx.par
+  refine ⟨sx.sd.trans (hX.sd.mono ha0), hX.par, sx.rootNP.step hX.sd (fun y hy => reach_lt inv hy hrootv),
+    sx.group.step hG hX.sd (fun e he r hr' => ⟨gx.lt e he r hr', gx.lt e he r hr'⟩), ?_⟩
+  intro x hxs hown hleaf
+  simp only at hxs hown hleaf ⊢
+  by_cases hlt : x < a1.size
+  · have hown' : (ndOf a1 x).owner = s := by rw [← (core_fields (hG.stable x hlt)).1]; exact hown
+    have hleaf' : (ndOf a1 x).leaf = true := by rw [← (core_fields (hG.stable x hlt)).2.1]; exact hleaf
+    exact (sx.leaf x hlt hown' hleaf').step hlt hlt hG hX.sd hP.child gx.lt
+  · exact hX.leafNew x (by omega) hxs hleaf
+
+/-- **`psubtree_add_trans` keeps the exact facts** -/
+theorem addTrans_sx {g : Fsg} {li : LexIn} {tm : Nat → Nat} {s : Nat} {lcOf rcOf : Nat → List Nat} {a0 : Array PNode} (hlc : lcOf s ≠ [])
+    (w0 : Bld) (lid : Nat) (hlid : lid ∈ stateArcs g s) (h : WInv g s a0 w0) (hr : WR w0) (hx : WX li tm s (lcOf s) w0) (htm : SsidTmat li tm)
+    (hn : 1 ≤ (li.word (g.link lid).wid.toNat).pron.length) (sx : SX li g lcOf rcOf s a0 w0) :
+    SX li g lcOf rcOf s a0 (addTrans li g s (lcOf s) (rcOf lid) w0 lid) := by
+  have hl := mem_stateArcs hlid
+  have hv : ∀ y, w0.root = some y → y < w0.nodes.size := fun y hy => (h.root y hy).1
+  have hinit : LcInv g s w0.nodes { nodes := w0.nodes, root := w0.root, lcl := [] } := ⟨h.inv, Ext.refl _, h.root, nil_all, nil_all⟩
+  have hqinit : QX w0.nodes { nodes := w0.nodes, root := w0.root, lcl := [] } :=
+    ⟨Sd.refl _ _, sx.rootNP, fun x h1 h2 => absurd h2 (Nat.not_lt.2 h1), nil_all, nil_all⟩
+  unfold addTrans
+  simp only
+  split
+  · rename_i h1
+    split
+    · rename_i hfl
+      have hfl' : (li.word (g.link lid).wid.toNat).dictFiller = false := by simpa using hfl
+      have hf := foldl_inv (fun st => LcInv g s w0.nodes st ∧ Quiet w0.nodes st.nodes ∧ Grow w0.nodes st.nodes ∧ QX w0.nodes st)
+          (singleStep li s lid ((li.word (g.link lid).wid.toNat).pron.headD 0) (g.link lid).logp) (lcOf s)
+          { nodes := w0.nodes, root := w0.root, lcl := [] } ⟨hinit, Quiet.refl _, Grow.refl _, hqinit⟩
+          (fun st lc _ h' => ⟨singleStep_inv hl st lc h'.1, h'.2.1.trans (singleStep_quiet st lc h'.1),
+            h'.2.2.1.trans (singleStep_grow0 st lc h'.1).1, singleStep_qx st lc h'.1 h'.2.2.2⟩)
+      exact sx.quietLoop h.ext.1 hx.gx hf.2.2.2 hf.2.1 hf.2.2.1 (singleFold_s (li := li) (g := g) w0.nodes w0.root)
+        (fun x _ _ hK hnp _ => ⟨lid, hlid, Or.inl ⟨h1, hnp, Or.inl ⟨hfl', hK⟩⟩⟩)
+    · rename_i hfl
+      have hfl' : (li.word (g.link lid).wid.toNat).dictFiller = true := by simpa using hfl
+      obtain ⟨q1, q2, q3⟩ := QX.pushRoot hinit hqinit (n := fillerNode li s lid ((li.word (g.link lid).wid.toNat).pron.headD 0) (g.link lid).logp w0.root) rfl rfl
+      exact sx.quietLoop (K := FillerS li g s lid)
+        (st := { nodes := w0.nodes.push (fillerNode li s lid ((li.word (g.link lid).wid.toNat).pron.headD 0) (g.link lid).logp w0.root),
+                 root := some w0.nodes.size, lcl := [] })
+        h.ext.1 hx.gx ⟨q1, q2, q3, nil_all, nil_all⟩ (quiet_push h.inv rfl) (grow_push h.inv _) ((LoopS.refl _ _).push _ rfl)
+        (fun x _ _ hK hnp _ => ⟨lid, hlid, Or.inl ⟨h1, hnp, Or.inr ⟨hfl', hK⟩⟩⟩)
+  · rename_i h1
+    have hn2 : 2 ≤ (li.word (g.link lid).wid.toNat).pron.length := by omega
+    -- a new set of roots
+    have newSet : SX li g lcOf rcOf s a0
+        { nodes := (((List.range (li.word (g.link lid).wid.toNat).pron.length).drop 1).foldl
+            (phoneStep li s lid (li.word (g.link lid).wid.toNat) (g.link lid).logp (rcOf lid)
+              ((lcOf s).foldl (rootStep li s ((li.word (g.link lid).wid.toNat).pron.headD 0) ((li.word (g.link lid).wid.toNat).pron.getD 1 0))
+                { nodes := w0.nodes, root := w0.root, lcl := [] }).lcl)
+            { nodes := ((lcOf s).foldl (rootStep li s ((li.word (g.link lid).wid.toNat).pron.headD 0) ((li.word (g.link lid).wid.toNat).pron.getD 1 0))
+                { nodes := w0.nodes, root := w0.root, lcl := [] }).nodes,
+              pred := ((lcOf s).foldl (rootStep li s ((li.word (g.link lid).wid.toNat).pron.headD 0) ((li.word (g.link lid).wid.toNat).pron.getD 1 0))
+                { nodes := w0.nodes, root := w0.root, lcl := [] }).root.getD 0 }).nodes,
+          root := ((lcOf s).foldl (rootStep li s ((li.word (g.link lid).wid.toNat).pron.headD 0) ((li.word (g.link lid).wid.toNat).pron.getD 1 0))
+                { nodes := w0.nodes, root := w0.root, lcl := [] }).root,
+          glists := GEntry.mk ((li.word (g.link lid).wid.toNat).pron.headD 0) ((li.word (g.link lid).wid.toNat).pron.getD 1 0)
+              ((lcOf s).foldl (rootStep li s ((li.word (g.link lid).wid.toNat).pron.headD 0) ((li.word (g.link lid).wid.toNat).pron.getD 1 0))
+                { nodes := w0.nodes, root := w0.root, lcl := [] }).lcl :: w0.glists } := by
+      obtain ⟨⟨hI, hR⟩, hQ, hG, hM, hK, hT⟩ := rootFold_all (li := li) (tm := tm) (ci := (li.word (g.link lid).wid.toNat).pron.headD 0)
+        (rc := (li.word (g.link lid).wid.toNat).pron.getD 1 0) w0 h hr hx.kind (lcOf s)
+      have hqx := (foldl_inv (fun st => LcInv g s w0.nodes st ∧ QX w0.nodes st)
+          (rootStep li s ((li.word (g.link lid).wid.toNat).pron.headD 0) ((li.word (g.link lid).wid.toNat).pron.getD 1 0)) (lcOf s)
+          { nodes := w0.nodes, root := w0.root, lcl := [] } ⟨hinit, hqinit⟩
+          (fun st lc _ h' => ⟨rootStep_inv st lc h'.1, rootStep_qx st lc h'.1 h'.2⟩)).2
+      have hLS := rootFold_s (li := li) (lclist := lcOf s) (s := s) (ci := (li.word (g.link lid).wid.toNat).pron.headD 0)
+        (rc := (li.word (g.link lid).wid.toNat).pron.getD 1 0) w0.nodes w0.root
+      have hlclne : ((lcOf s).foldl (rootStep li s ((li.word (g.link lid).wid.toNat).pron.headD 0)
+          ((li.word (g.link lid).wid.toNat).pron.getD 1 0)) { nodes := w0.nodes, root := w0.root, lcl := [] }).lcl ≠ [] := by
+        have hlm : ((lcOf s).foldl (rootStep li s ((li.word (g.link lid).wid.toNat).pron.headD 0)
+            ((li.word (g.link lid).wid.toNat).pron.getD 1 0)) { nodes := w0.nodes, root := w0.root, lcl := [] }).lmap ≠ [] := by
+          cases hlcs : lcOf s with
+          | nil => exact absurd hlcs hlc
+          | cons x rest =>
+            simp only [List.foldl_cons]
+            exact (rootFold_root li s _ _ rest _ (rootStep_root li s _ _ _ x (Or.inl rfl))).1
+        intro h0
+        cases hlmap : ((lcOf s).foldl (rootStep li s ((li.word (g.link lid).wid.toNat).pron.headD 0)
+            ((li.word (g.link lid).wid.toNat).pron.getD 1 0)) { nodes := w0.nodes, root := w0.root, lcl := [] }).lmap with
+        | nil => exact hlm hlmap
+        | cons y ys =>
+          have := hT.lmapSub y (by rw [hlmap]; exact List.mem_cons_self ..)
+          rw [h0] at this; cases this
+      generalize hRdef : (lcOf s).foldl (rootStep li s ((li.word (g.link lid).wid.toNat).pron.headD 0)
+          ((li.word (g.link lid).wid.toNat).pron.getD 1 0)) { nodes := w0.nodes, root := w0.root, lcl := [] } = R at *
+      have gxQ := hx.gx.quiet hQ
+      have hgx' : GX (GEntry.mk ((li.word (g.link lid).wid.toNat).pron.headD 0) ((li.word (g.link lid).wid.toNat).pron.getD 1 0) R.lcl :: w0.glists) R.nodes := by
+        refine ⟨?_, ?_, ?_, ?_⟩
+        · intro e' he' r hr'
+          rcases List.mem_cons.1 he' with h2 | h2
+          · rw [h2] at hr'; exact (hI.lcl r hr').1
+          · exact gxQ.lt e' h2 r hr'
+        · intro e' he' r hr'
+          rcases List.mem_cons.1 he' with h2 | h2
+          · rw [h2] at hr'; exact hT.noPar r hr'
+          · exact gxQ.noPar e' h2 r hr'
+        · intro e' he' r hr' r' hr''
+          rcases List.mem_cons.1 he' with h2 | h2
+          · rw [h2] at hr' hr''; rw [hT.succNone r hr', hT.succNone r' hr'']
+          · exact gxQ.same e' h2 r hr' r' hr''
+        · intro e1 he1 e2 he2 x hx1 hx2
+          rcases List.mem_cons.1 he1 with h2 | h2 <;> rcases List.mem_cons.1 he2 with h3 | h3
+          · rw [h2, h3]
+          · rw [h2] at hx1
+            have := hT.fresh x hx1
+            have := hx.gx.lt e2 h3 x hx2
+            omega
+          · rw [h3] at hx2
+            have := hT.fresh x hx2
+            have := hx.gx.lt e1 h2 x hx1
+            omega
+          · exact gxQ.disj e1 h2 e2 h3 x hx1 hx2
+      have hpredm : R.root.getD 0 ∈ R.lcl := by
+        rw [hT.rootHead hlclne]
+        cases hl' : R.lcl with
+        | nil => exact absurd hl' hlclne
+        | cons y ys => exact List.mem_cons_self ..
+      have ctx : PhCtx g li tm s lid (li.word (g.link lid).wid.toNat) R.lcl
+          (GEntry.mk ((li.word (g.link lid).wid.toNat).pron.headD 0) ((li.word (g.link lid).wid.toNat).pron.getD 1 0) R.lcl :: w0.glists) R.nodes :=
+        ⟨hl, rfl, hI.lcl, hR.nodup, ⟨_, List.mem_cons_self .., rfl⟩, htm, hn2⟩
+      have sx1 : SX li g lcOf rcOf s a0 { nodes := R.nodes, root := R.root, glists := w0.glists } :=
+        sx.quietLoop (st := R) h.ext.1 hx.gx hqx hQ hG hLS (fun x _ _ hK' _ hleaf => by
+          rw [(core_eq hK'.1).2.1] at hleaf; cases hleaf)
+      have sx2 := sx1.consGroup (GEntry.mk ((li.word (g.link lid).wid.toNat).pron.headD 0) ((li.word (g.link lid).wid.toNat).pron.getD 1 0) R.lcl)
+        (fun r hr' => hLS.new r (hT.fresh r hr') (hI.lcl r hr').1)
+      exact multi_sx ctx hI.inv hR.ranked hgx' (hK.intoSets _ rfl) hpredm ⟨_, List.mem_cons_self .., rfl, rfl, rfl⟩ hlid
+        (fun y hy => (hI.root y hy).1) (Nat.le_trans h.ext.1 hQ.size) sx2
+    split
+    · rename_i i e hf
+      obtain ⟨he, hspec⟩ := findG_spec _ _ _ _ _ _ hf
+      have hne := hx.nonempty e he
+      have hemp : e.list.isEmpty = false := by
+        cases hel : e.list with
+        | nil => exact absurd hel hne
+        | cons _ _ => rfl
+      have hcirc : e.ci = (li.word (g.link lid).wid.toNat).pron.headD 0 ∧ e.rc = (li.word (g.link lid).wid.toNat).pron.getD 1 0 := by
+        rcases hspec with h2 | h2
+        · rw [hemp] at h2; cases h2
+        · exact h2
+      simp only [hemp, Bool.not_false, if_true]
+      have ctx : PhCtx g li tm s lid (li.word (g.link lid).wid.toNat) e.list w0.glists w0.nodes :=
+        ⟨hl, rfl, h.glists e he, hr.nodup e he, ⟨e, he, rfl⟩, htm, hn2⟩
+      exact multi_sx ctx h.inv hr.ranked hx.gx hx.kind (headD_mem hne) ⟨e, he, rfl, hcirc.1, hcirc.2⟩ hlid hv h.ext.1 sx
+    · exact newSet
+
+/-! ### a path up from a leaf is the recorded chain -/
+
+/-- `qe 0, qe 1, …, qe K`: a chain of parents that ends in a parentless pnode; `ce 0 = qe 0, ce 1, …, ce N`: the recorded chain,
+under every root of the set `e`.  They coincide, `K = N + 1`, and `qe K` is a root of `e`. -/
+theorem path_unique {gl : List GEntry} {a : Array PNode} (gx : GX gl a) {e : GEntry} (he : e ∈ gl) (hne : e.list ≠ []) (qe ce : Nat → Nat)
+    (K N : Nat) (h0 : qe 0 = ce 0) (hq : ∀ i, i < K → Child a (qe (i + 1)) (qe i)) (hc : ∀ i, i < N → Child a (ce (i + 1)) (ce i))
+    (hr : ∀ r ∈ e.list, Child a r (ce N)) (hnp : NoPar a (qe K)) (hP : ∀ i, i < K → ParOf gl a (qe i)) (hK : 1 ≤ K) :
+    K = N + 1 ∧ qe K ∈ e.list ∧ ∀ i, i ≤ N → qe i = ce i := by
+  obtain ⟨r0, hr0⟩ : ∃ r0, r0 ∈ e.list := by
+    cases hl : e.list with
+    | nil => exact absurd hl hne
+    | cons y ys => exact ⟨y, List.mem_cons_self ..⟩
+  have hcpar : ∀ i, i ≤ N → 1 ≤ i → ∃ p, Child a p (ce i) := by
+    intro i hi _
+    by_cases hiN : i < N
+    · exact ⟨_, hc i hiN⟩
+    · have : i = N := by omega
+      rw [this]; exact ⟨r0, hr r0 hr0⟩
+  have hA : ∀ i, i ≤ N → i < K → qe i = ce i := by
+    intro i
+    induction i with
+    | zero => intro _ _; exact h0
+    | succ i ih =>
+      intro h1 h2
+      have hy := ih (by omega) (by omega)
+      have hp1 : Child a (qe (i + 1)) (qe i) := hq i (by omega)
+      have hp2 : Child a (ce (i + 1)) (qe i) := by rw [hy]; exact hc i (by omega)
+      have hpp1 : Child a (qe (i + 2)) (qe (i + 1)) := hq (i + 1) h2
+      rcases hP i (by omega) with d1 | ⟨e', he', d2⟩ | ⟨p, d3, _⟩
+      · exact absurd hp1 (d1 _)
+      · exact absurd hpp1 (gx.noPar e' he' _ (d2 _ hp1) _)
+      · rw [d3 _ hp1, d3 _ hp2]
+  -- `K` is not shorter than the recorded chain
+  have hKN : N + 1 ≤ K := by
+    rcases Nat.lt_or_ge N K with h1 | h1
+    · omega
+    · exfalso
+      obtain ⟨K', rfl⟩ : ∃ K', K = K' + 1 := ⟨K - 1, by omega⟩
+      have hy := hA K' (by omega) (by omega)
+      have hp1 : Child a (qe (K' + 1)) (qe K') := hq K' (by omega)
+      have hp2 : Child a (ce (K' + 1)) (qe K') := by rw [hy]; exact hc K' (by omega)
+      obtain ⟨pc, hpc⟩ := hcpar (K' + 1) (by omega) (by omega)
+      rcases hP K' (by omega) with d1 | ⟨e', he', d2⟩ | ⟨p, d3, _⟩
+      · exact absurd hp1 (d1 _)
+      · exact absurd hpc (gx.noPar e' he' _ (d2 _ hp2) _)
+      · have : qe (K' + 1) = ce (K' + 1) := by rw [d3 _ hp1, d3 _ hp2]
+        exact absurd hpc (this ▸ hnp pc)
+  have hy := hA N (Nat.le_refl _) (by omega)
+  have hp1 : Child a (qe (N + 1)) (qe N) := hq N (by omega)
+  have hp2 : Child a r0 (qe N) := by rw [hy]; exact hr r0 hr0
+  have hKe : K = N + 1 := by
+    rcases Nat.lt_or_ge (N + 1) K with h1 | h1
+    · exfalso
+      have hpp1 : Child a (qe (N + 2)) (qe (N + 1)) := hq (N + 1) h1
+      rcases hP N (by omega) with d1 | ⟨e', he', d2⟩ | ⟨p, d3, _⟩
+      · exact absurd hp1 (d1 _)
+      · exact absurd hpp1 (gx.noPar e' he' _ (d2 _ hp1) _)
+      · have : qe (N + 1) = r0 := by rw [d3 _ hp1, d3 _ hp2]
+        exact absurd hpp1 (this ▸ gx.noPar e he r0 hr0 _)
+    · omega
+  refine ⟨hKe, ?_, fun i hi => hA i hi (by omega)⟩
+  rw [hKe]
+  rcases hP N (by omega) with d1 | ⟨e', he', d2⟩ | ⟨p, d3, p'', hpp⟩
+  · exact absurd hp1 (d1 _)
+  · have := gx.disj e' he' e he r0 (d2 _ hp2) hr0
+    rw [← this]; exact d2 _ hp1
+  · have : r0 = p := d3 _ hp2
+    exact absurd hpp (this ▸ gx.noPar e he r0 hr0 p'')
+
+/-! ### the root-to-leaf paths of one state -/
+
+section Paths
+variable (li : LexIn) (g : Fsg) (lcOf rcOf : Nat → List Nat)
+
+/-- what a root-to-leaf path `q 0 → … → q k` of state `s` is: the pnodes of one word arc `lid` leaving `s` whose word has
+`k + 1` phones -/
+def PathFacts (a : Array PNode) (s k : Nat) (q : Nat → Nat) : Prop :=
+  ∃ lid, lid ∈ stateArcs g s ∧ (li.word (g.link lid).wid.toNat).pron.length = k + 1 ∧
+    (k = 0 → ((li.word (g.link lid).wid.toNat).dictFiller = false ∧ SingleS li g (lcOf s) s lid (ndOf a (q 0))) ∨
+      ((li.word (g.link lid).wid.toNat).dictFiller = true ∧ FillerS li g s lid (ndOf a (q 0)))) ∧
+    (1 ≤ k →
+      RootS li (lcOf s) s ((li.word (g.link lid).wid.toNat).pron.headD 0) ((li.word (g.link lid).wid.toNat).pron.getD 1 0) (ndOf a (q 0)) ∧
+      (∀ j, 1 ≤ j → j < k → (ndOf a (q j)).leaf = false ∧ (ndOf a (q j)).ssid = li.internal (li.word (g.link lid).wid.toNat).dictWid j ∧
+        (ndOf a (q j)).tmatid = li.tmat ((li.word (g.link lid).wid.toNat).pron.getD j 0) ∧ (ndOf a (q j)).logs2prob = li.pip) ∧
+      LeafS li (rcOf lid) s lid ((li.word (g.link lid).wid.toNat).pron.getD ((li.word (g.link lid).wid.toNat).pron.length - 1) 0)
+        ((li.word (g.link lid).wid.toNat).pron.getD ((li.word (g.link lid).wid.toNat).pron.length - 1 - 1) 0) (g.link lid).logp (ndOf a (q k)))
+
+/-- every root-to-leaf path under `root` is the path of a word arc -/
+def PathsSound (a : Array PNode) (s : Nat) (root : Option Nat) : Prop :=
+  ∀ (k : Nat) (q : Nat → Nat), Reach a root (q 0) → (∀ j, j < k → Child a (q j) (q (j + 1))) → (ndOf a (q k)).leaf = true →
+    PathFacts li g lcOf rcOf a s k q
+
+variable {li g lcOf rcOf}
+
+theorem state_paths_sound {s : Nat} {a0 : Array PNode} {w : Bld} (inv : GInv g w.nodes) (hroot : OValid w.nodes s w.root) (gx : GX w.glists w.nodes)
+    (hne : ∀ e ∈ w.glists, e.list ≠ []) (sx : SX li g lcOf rcOf s a0 w) : PathsSound li g lcOf rcOf w.nodes s w.root := by
+  intro k q h0 hch hleaf
+  have hval : ∀ j, j ≤ k → Valid w.nodes s (q j) := by
+    intro j
+    induction j with
+    | zero => intro _; exact reach_valid inv h0 hroot
+    | succ j ih => intro hj; exact child_valid inv (ih (by omega)).2 (hch j (by omega))
+  have hnp0 := sx.rootNP _ h0
+  obtain ⟨lid, hlid, hk⟩ := sx.leaf (q k) (hval k (Nat.le_refl _)).1 (hval k (Nat.le_refl _)).2 hleaf
+  rcases hk with ⟨h1, h2, h3⟩ | ⟨h1, h2, e, he, h3, h4, qf, h5, h6, h7⟩
+  · have hk0 : k = 0 := by
+      rcases Nat.eq_zero_or_pos k with h | h
+      · exact h
+      · obtain ⟨k', rfl⟩ : ∃ k', k = k' + 1 := ⟨k - 1, by omega⟩
+        exact absurd (hch k' (by omega)) (h2 _)
+    subst hk0
+    exact ⟨lid, hlid, h1, fun _ => h3, fun h => by omega⟩
+  · obtain ⟨r0, hr0⟩ : ∃ r0, r0 ∈ e.list := by
+      cases hl : e.list with
+      | nil => exact absurd hl (hne e he)
+      | cons y ys => exact ⟨y, List.mem_cons_self ..⟩
+    have hk1 : 1 ≤ k := by
+      rcases Nat.eq_zero_or_pos k with h | h
+      · exfalso
+        subst h
+        by_cases hN : (li.word (g.link lid).wid.toNat).pron.length - 2 = 0
+        · exact hnp0 _ (h6 hN r0 hr0)
+        · exact hnp0 _ (h7 (by omega))
+      · exact h
+    obtain ⟨hK, hrt, hall⟩ := path_unique gx he (hne e he) (fun i => q (k - i))
+      (fun i => if i = 0 then q k else qf ((li.word (g.link lid).wid.toNat).pron.length - 1 - i)) k ((li.word (g.link lid).wid.toNat).pron.length - 2)
+      (by simp)
+      (fun i hi => by
+        have := hch (k - (i + 1)) (by omega)
+        have e1 : k - (i + 1) + 1 = k - i := by omega
+        rw [e1] at this; exact this)
+      (fun i hi => by
+        simp only [Nat.succ_ne_zero, if_false]
+        by_cases hi0 : i = 0
+        · subst hi0
+          simp only [if_true]
+          exact h7 (by omega)
+        · simp only [hi0, if_false]
+          have := h5.link ((li.word (g.link lid).wid.toNat).pron.length - 1 - (i + 1)) (by omega) (by omega)
+          have e1 : (li.word (g.link lid).wid.toNat).pron.length - 1 - (i + 1) + 1 = (li.word (g.link lid).wid.toNat).pron.length - 1 - i := by omega
+          rw [e1] at this; exact this)
+      (fun r hr' => by
+        by_cases hN : (li.word (g.link lid).wid.toNat).pron.length - 2 = 0
+        · simp only [hN, if_true]; exact h6 hN r hr'
+        · simp only [hN, if_false]
+          have e1 : (li.word (g.link lid).wid.toNat).pron.length - 1 - ((li.word (g.link lid).wid.toNat).pron.length - 2) = 1 := by omega
+          rw [e1]; exact h5.first (by omega) r hr')
+      (by simp only [Nat.sub_self]; exact hnp0)
+      (fun i hi => sx.par _ (hval (k - i) (by omega)).1 (hval (k - i) (by omega)).2) hk1
+    simp only [Nat.sub_self] at hrt
+    refine ⟨lid, hlid, by omega, fun h => by omega, fun _ => ⟨?_, ?_, h2⟩⟩
+    · have := sx.group e he (q 0) hrt
+      rw [h3, h4] at this; exact this
+    · intro j hj1 hj2
+      have := hall (k - j) (by omega)
+      have e1 : k - (k - j) = j := by omega
+      have e2 : ¬ (k - j = 0) := by omega
+      have e3 : (li.word (g.link lid).wid.toNat).pron.length - 1 - (k - j) = j := by omega
+      simp only [e1, e2, if_false, e3] at this
+      rw [this]
+      exact (h5.data j hj1 (by omega)).2
+
+end Paths
+
+/-! ### one state, all states -/
+
+/-- **one state**: every root-to-leaf path under the new `root[s]` is the path of a word arc leaving `s` -/
+theorem buildState_sx {g : Fsg} {li : LexIn} {tm : Nat → Nat} {lcs rcs : Array Nat} {nodes : Array PNode} {s : Nat}
+    (hlc : ctxList li (lcs.getD s 0) ≠ []) (inv : GInv g nodes) (hr : Ranked nodes) (htm : SsidTmat li tm)
+    (hpron : ∀ lid ∈ stateArcs g s, 1 ≤ (li.word (g.link lid).wid.toNat).pron.length)
+    (hown : ∀ x, x < nodes.size → (ndOf nodes x).owner ≠ s) :
+    PathsSound li g (fun s => ctxList li (lcs.getD s 0)) (fun lid => ctxList li (rcs.getD (g.link lid).dst 0))
+      (buildState li g lcs rcs nodes s).1 s (buildState li g lcs rcs nodes s).2 ∧
+    RootNP (buildState li g lcs rcs nodes s).1 (buildState li g lcs rcs nodes s).2 ∧
+    Sd nodes.size nodes (buildState li g lcs rcs nodes s).1 := by
+  have h := foldl_inv
+    (fun w => ((WInv g s nodes w ∧ WR w) ∧ WX li tm s (ctxList li (lcs.getD s 0)) w) ∧
+      SX li g (fun s => ctxList li (lcs.getD s 0)) (fun lid => ctxList li (rcs.getD (g.link lid).dst 0)) s nodes w)
+    (fun w lid => addTrans li g s (ctxList li (lcs.getD s 0)) (ctxList li (rcs.getD (g.link lid).dst 0)) w lid)
+    (stateArcs g s) { nodes := nodes }
+    ⟨⟨⟨⟨inv, Ext.refl _, ovalid_none _ _, nil_all⟩, ⟨hr, nil_all⟩⟩,
+      ⟨⟨nil_all, nil_all, nil_all, nil_all⟩, fun x hx ho _ => absurd ho (hown x hx), nil_all, nil_all⟩⟩,
+     ⟨Sd.refl _ _, fun x hx ho => absurd ho (hown x hx), fun x hx => (by cases hx), nil_all, fun x hx ho _ => absurd ho (hown x hx)⟩⟩
+    (fun w lid hm hw => by
+      have hl := mem_stateArcs hm
+      exact ⟨⟨⟨addTrans_inv hlc w lid hl hw.1.1.1, addTrans_ranked hlc w lid hl hw.1.1.1 hw.1.1.2⟩,
+        (addTrans_x (li := li) (tm := tm) (rclist := ctxList li (rcs.getD (g.link lid).dst 0)) hlc w lid hl hw.1.1.1 hw.1.1.2 hw.1.2 htm
+          (hpron lid hm)).1⟩,
+        addTrans_sx (lcOf := fun s => ctxList li (lcs.getD s 0)) (rcOf := fun lid => ctxList li (rcs.getD (g.link lid).dst 0))
+          hlc w lid hm hw.1.1.1 hw.1.1.2 hw.1.2 htm (hpron lid hm) hw.2⟩)
+  exact ⟨state_paths_sound h.1.1.1.inv h.1.1.1.root h.1.2.gx h.1.2.nonempty h.2, h.2.rootNP, h.2.sd⟩
+
+/-- the paths of an earlier state are untouched by the construction of a later state -/
+theorem PathsSound.later {li : LexIn} {g : Fsg} {lcOf rcOf : Nat → List Nat} {a a' : Array PNode} {s s' : Nat} {root : Option Nat}
+    (hss : s ≠ s') (hps : PathsSound li g lcOf rcOf a s root) (hnp : RootNP a root) (hroot : OValid a s root) (inv : GInv g a)
+    (inv' : GInv g a') (gr : Grow a a') (sd : Sd a.size a a') (hown' : OwnSince a.size s' a') :
+    PathsSound li g lcOf rcOf a' s root ∧ RootNP a' root := by
+  have hchain : ∀ y, Reach a root y → y < a.size := fun y hy => reach_lt inv hy (fun z hz => (hroot z hz).1)
+  refine ⟨?_, hnp.step sd hchain⟩
+  have hold : ∀ x, x < a'.size → (ndOf a' x).owner = s → x < a.size := by
+    intro x hx ho
+    rcases Nat.lt_or_ge x a.size with h | h
+    · exact h
+    · exact absurd ((hown' x h hx).symm.trans ho) (Ne.symm hss)
+  have hext : Ext a a' := ⟨gr.size, fun p hp => (core_fields (gr.stable p hp)).1⟩
+  intro k q h0 hch hleaf
+  have h0' : Reach a root (q 0) := sd.reachRev h0 (fun y hy => ⟨hnp y hy, hchain y hy⟩)
+  have hval : ∀ j, j ≤ k → Valid a' s (q j) := by
+    intro j
+    induction j with
+    | zero => intro _; exact reach_valid inv' h0 (hroot.ext hext)
+    | succ j ih => intro hj; exact child_valid inv' (ih (by omega)).2 (hch j (by omega))
+  have hlt : ∀ j, j ≤ k → q j < a.size := fun j hj => hold _ (hval j hj).1 (hval j hj).2
+  have hch' : ∀ j, j < k → Child a (q j) (q (j + 1)) := fun j hj => sd.parSub _ _ (hlt (j + 1) (by omega)) (hch j hj)
+  have hv : ∀ j, j ≤ k → view (ndOf a' (q j)) = view (ndOf a (q j)) := fun j hj => view_of gr sd (hlt j hj) (hlt j hj)
+  have hleaf' : (ndOf a (q k)).leaf = true := by
+    rw [← (core_fields (view_core (hv k (Nat.le_refl _)))).2.1]; exact hleaf
+  obtain ⟨lid, hlid, hlen, hk0, hk1⟩ := hps k q h0' hch' hleaf'
+  refine ⟨lid, hlid, hlen, fun h => ?_, fun h => ?_⟩
+  · rcases hk0 h with ⟨h1, h2⟩ | ⟨h1, h2⟩
+    · exact Or.inl ⟨h1, h2.congr (hv 0 (by omega))⟩
+    · exact Or.inr ⟨h1, h2.congr (hv 0 (by omega))⟩
+  · obtain ⟨h1, h2, h3⟩ := hk1 h
+    refine ⟨h1.congr (hv 0 (by omega)), fun j hj1 hj2 => ?_, h3.congr (hv k (Nat.le_refl _))⟩
+    obtain ⟨_, f2, _, f4, f5, f6, _⟩ := core_fields (view_core (hv j (by omega)))
+    rw [f2, f4, f5, f6]; exact h2 j hj1 hj2
+
+/-- all states -/
+theorem buildFold_sx (li : LexIn) (g : Fsg) (tm : Nat → Nat) (hsil : li.sil < li.nCi) (htm : SsidTmat li tm)
+    (hpron : ∀ s, s < li.nState → ∀ lid ∈ stateArcs g s, 1 ≤ (li.word (g.link lid).wid.toNat).pron.length) :
+    ∀ n, n ≤ li.nState → ∀ s, s < n →
+      PathsSound li g (fun s => ctxList li ((ctxFlags li g).1.getD s 0)) (fun lid => ctxList li ((ctxFlags li g).2.getD (g.link lid).dst 0))
+        ((List.range n).foldl (buildStep li g) (#[], #[])).1 s (((List.range n).foldl (buildStep li g) (#[], #[])).2.getD s none) ∧
+      RootNP ((List.range n).foldl (buildStep li g) (#[], #[])).1 (((List.range n).foldl (buildStep li g) (#[], #[])).2.getD s none) := by
+  intro n
+  induction n with
+  | zero => intro _ s hs; omega
+  | succ n ih =>
+    intro hn
+    obtain ⟨hi, hsz, hroots⟩ := buildFold_inv li g hsil n (by omega)
+    obtain ⟨hi', _, _⟩ := buildFold_inv li g hsil (n + 1) hn
+    have hr := buildFold_ranked li g hsil n (by omega)
+    obtain ⟨hown, _⟩ := buildFold_multi li g tm hsil htm hpron n (by omega)
+    have ih' := ih (by omega)
+    rw [List.range_succ, List.foldl_append] at hi' ⊢
+    simp only [List.foldl_cons, List.foldl_nil] at hi' ⊢
+    generalize (List.range n).foldl (buildStep li g) (#[], #[]) = acc at hi hsz hroots hr hown ih' hi'
+    have hown0 : ∀ x, x < acc.1.size → (ndOf acc.1 x).owner ≠ n := fun x hx h0 => by have := hown x hx; omega
+    obtain ⟨⟨hG, hC, hO⟩, _⟩ := buildState_multi (li := li) (tm := tm) (lcs := (ctxFlags li g).1) (rcs := (ctxFlags li g).2)
+      (ctxList_ne_nil li g hsil (by omega : n < li.nState)) hi hr htm (hpron n (by omega)) hown0
+    obtain ⟨hP, hNP, hSd⟩ := buildState_sx (li := li) (tm := tm) (lcs := (ctxFlags li g).1) (rcs := (ctxFlags li g).2)
+      (ctxList_ne_nil li g hsil (by omega : n < li.nState)) hi hr htm (hpron n (by omega)) hown0
+    intro s hs
+    show PathsSound li g _ _ (buildState li g (ctxFlags li g).1 (ctxFlags li g).2 acc.1 n).1 s
+        ((acc.2.push (buildState li g (ctxFlags li g).1 (ctxFlags li g).2 acc.1 n).2).getD s none) ∧
+      RootNP (buildState li g (ctxFlags li g).1 (ctxFlags li g).2 acc.1 n).1
+        ((acc.2.push (buildState li g (ctxFlags li g).1 (ctxFlags li g).2 acc.1 n).2).getD s none)
+    by_cases hsn : s < n
+    · have : (acc.2.push (buildState li g (ctxFlags li g).1 (ctxFlags li g).2 acc.1 n).2).getD s none = acc.2.getD s none := by
+        simp [Array.getD, hsz, hsn, Array.getElem_push, Nat.lt_succ_of_lt hsn]
+      rw [this]
+      obtain ⟨i1, i2⟩ := ih' s hsn
+      exact PathsSound.later (by omega) i1 i2 (hroots s hsn) hi hi' hG hSd hO
+    · have hs' : s = n := by omega
+      subst hs'
+      have : (acc.2.push (buildState li g (ctxFlags li g).1 (ctxFlags li g).2 acc.1 s).2).getD s none =
+          (buildState li g (ctxFlags li g).1 (ctxFlags li g).2 acc.1 s).2 := by
+        simp [Array.getD, hsz, Array.getElem_push]
+      rw [this]
+      exact ⟨hP, hNP⟩
+
+theorem mem_chainA_reach (a : Array PNode) : ∀ (k : Nat) {o : Option Nat} {x : Nat}, x ∈ chainA a k o → Reach a o x := by
+  intro k
+  induction k with
+  | zero => intro o x h; cases o <;> simp [chainA] at h
+  | succ k ih =>
+    intro o x h
+    cases o with
+    | none => simp [chainA] at h
+    | some p =>
+      simp only [chainA] at h
+      rcases List.mem_cons.1 h with h1 | h1
+      · rw [h1]; exact Reach.here
+      · exact Reach.next (ih h1)
+
+/-- **every root-to-leaf path of the lextree the code builds is the path of a word arc**: for `q 0` a root of `root[s]`, every
+`q (j+1)` a child of `q j` (in the sense of `fsg_search_pnode_trans`) and `q k` a leaf, there is a word arc `lid` leaving `s` whose
+word has `k + 1` phones such that — `k = 0`: `q 0` is the pnode of the single-phone word / filler of the arc; `k ≥ 1`: `q 0` is a
+word-initial pnode of the word (every bit `c` of its context set is a left context of `s` with `ssid = ldiph p₀ p₁ c`), `q j` has
+the ssid, transition matrix and entry penalty of the word's position `j`, and `q k` is a word-final pnode carrying the arc (every
+bit `c` of its context set is a right context of the arc's target state with `ssid = rssid p_k p_{k−1} c`). -/
+theorem build_paths_sound (li : LexIn) (g : Fsg) (tm : Nat → Nat) (hsil : li.sil < li.nCi) (htm : SsidTmat li tm)
+    (hpron : ∀ s, s < li.nState → ∀ lid ∈ stateArcs g s, 1 ≤ (li.word (g.link lid).wid.toNat).pron.length)
+    {s : Nat} (hs : s < li.nState) (k : Nat) (q : Nat → Nat) (h0 : q 0 ∈ (buildLexTree li g).roots s)
+    (hch : ∀ j, j < k → q (j + 1) ∈ (buildLexTree li g).children (q j)) (hleaf : ((buildLexTree li g).node (q k)).leaf = true) :
+    PathFacts li g (fun s => ctxList li ((ctxFlags li g).1.getD s 0)) (fun lid => ctxList li ((ctxFlags li g).2.getD (g.link lid).dst 0))
+      (buildLexTree li g).nodes s k q := by
+  refine (buildFold_sx li g tm hsil htm hpron li.nState (Nat.le_refl _) s hs).1 k q ?_ ?_ hleaf
+  · unfold LexTree.roots at h0
+    rw [chain_eq] at h0
+    exact mem_chainA_reach _ _ h0
+  · intro j hj
+    have := hch j hj
+    unfold LexTree.children at this
+    split at this
+    · cases this
+    · rw [chain_eq] at this
+      exact mem_chainA_reach _ _ this
+
+/-! ### in the terms of the flat network -/
+
+section Flat
+open SSVerif.FlatNet (Model Arc Word Inst instsOfArc wordArcs lcSet rcSet shiftS)
+open SSVerif.Generated.Search (wposSingle wposBegin wposInternal wposEnd)
+
+/-- **every root-to-leaf path of the lextree the code builds is an instance chain of one word arc of the flat network** -/
+theorem bridge_paths {M : Model} {li : LexIn} {tm : Nat → Nat} (h : Agree M li) (hl : LookAgree M li) (htm : SsidTmat li tm)
+    (hall : ∀ i a w, (i, a, w) ∈ wordArcs M → ∃ insts, instsOfArc M i a w = some insts)
+    {s : Nat} (hs : s < li.nState) (k : Nat) (q : Nat → Nat) (h0 : q 0 ∈ (buildLexTree li (fsgOf M)).roots s)
+    (hch : ∀ j, j < k → q (j + 1) ∈ (buildLexTree li (fsgOf M)).children (q j))
+    (hleaf : ((buildLexTree li (fsgOf M)).node (q k)).leaf = true) :
+    ∃ i a w insts, (i, a, w) ∈ wordArcs M ∧ instsOfArc M i a w = some insts ∧ a.src = s ∧ w.pron.length = k + 1 ∧
+      ((buildLexTree li (fsgOf M)).node (q k)).link = i ∧
+      (k = 0 → (∃ y ∈ insts, NodeOf ((buildLexTree li (fsgOf M)).node (q 0)) y ∧ y.lc = none ∧ y.rc = none) ∨
+        (∀ c, ((buildLexTree li (fsgOf M)).node (q 0)).ctxt.testBit c = true →
+          ∃ y ∈ insts, NodeOf ((buildLexTree li (fsgOf M)).node (q 0)) y ∧ y.lc = some c)) ∧
+      (1 ≤ k →
+        (∀ c, ((buildLexTree li (fsgOf M)).node (q 0)).ctxt.testBit c = true →
+          ∃ R ∈ insts, R.isRoot = true ∧ R.lc = some c ∧ NodeOf ((buildLexTree li (fsgOf M)).node (q 0)) R) ∧
+        (∀ j, 1 ≤ j → j < k → ∃ x ∈ insts, x.isRoot = false ∧ x.isLeaf = false ∧ x.pos = j ∧
+          NodeOf ((buildLexTree li (fsgOf M)).node (q j)) x) ∧
+        (∀ c, ((buildLexTree li (fsgOf M)).node (q k)).ctxt.testBit c = true →
+          ∃ L ∈ insts, L.isLeaf = true ∧ L.rc = some c ∧ NodeOf ((buildLexTree li (fsgOf M)).node (q k)) L)) := by
+  obtain ⟨lid, hm, hlen, hk0, hk1⟩ := build_paths_sound li (fsgOf M) tm h.silCi htm (agree_pron h) hs k q h0 hch hleaf
+  obtain ⟨a, w, hwa, hsrc⟩ := wordArc_of_stateArc h hm
+  subst hsrc
+  obtain ⟨insts, hi⟩ := hall lid a w hwa
+  have v := arcView h hl hwa
+  obtain ⟨wid, hwid, hwd⟩ := v.wid
+  have hok := build_lexTreeOK li (fsgOf M) h.silCi
+  -- owners along the path
+  have hown : ∀ j, j ≤ k → q j < (buildLexTree li (fsgOf M)).nodes.size ∧ ((buildLexTree li (fsgOf M)).node (q j)).owner = a.src := by
+    intro j
+    induction j with
+    | zero =>
+      intro _
+      have hrs : a.src < (buildLexTree li (fsgOf M)).root.size := by
+        rcases Nat.lt_or_ge a.src (buildLexTree li (fsgOf M)).root.size with h5 | h5
+        · exact h5
+        · exact absurd h0 (by
+            unfold LexTree.roots
+            have : (buildLexTree li (fsgOf M)).root.getD a.src none = none := by simp [Array.getD, Nat.not_lt.2 h5]
+            rw [this, chain_none]; simp)
+      exact hok.1 a.src hrs (q 0) h0
+    | succ j ih =>
+      intro hj
+      obtain ⟨i1, i2⟩ := ih (by omega)
+      have := hok.2.1 (q j) i1 (q (j + 1)) (hch j (by omega))
+      exact ⟨this.1, by rw [this.2]; exact i2⟩
+  unfold SingleS FillerS at hk0
+  unfold RootS LeafS at hk1
+  have hnode : ∀ x, (buildLexTree li (fsgOf M)).node x = ndOf (buildLexTree li (fsgOf M)).nodes x := fun _ => rfl
+  simp only [hnode] at hown ⊢
+  simp only [v.pron, v.filler, v.logp, v.dst] at hlen hk0 hk1
+  rw [hwid] at hk1
+  refine ⟨lid, a, w, insts, hwa, hi, rfl, hlen, ?_, fun hk => ?_, fun hk => ?_⟩
+  · by_cases hk : k = 0
+    · subst hk
+      rcases hk0 rfl with ⟨_, h3, _⟩ | ⟨_, h3⟩
+      · exact (core_eq h3).2.2.1
+      · exact (core_eq h3).2.2.1
+    · exact (core_eq (hk1 (by omega)).2.2.1).2.2.1
+  · subst hk
+    obtain ⟨p, hp⟩ := pron_one hlen
+    rcases hk0 rfl with ⟨h2, h3, h4⟩ | ⟨h2, h3⟩
+    · rw [hp] at h3 h4
+      obtain ⟨f1, f2, f3, _, f5, f6, f7⟩ := core_eq h3
+      unfold instsOfArc at hi
+      simp only [hp, h2, Bool.false_eq_true, if_false, Option.bind_eq_bind, Option.bind_eq_some_iff] at hi
+      obtain ⟨tmv, htmv, hmap⟩ := hi
+      refine Or.inr (fun c hc => ?_)
+      obtain ⟨hcl, hss⟩ := h4 c hc
+      obtain ⟨y, hy, hfy⟩ := mapM_option_mem hmap c ((lc_iff h v.src c).1 hcl)
+      simp only [Option.bind_eq_some_iff, Option.pure_def, Option.some.injEq] at hfy
+      obtain ⟨ss, hss', hye⟩ := hfy
+      subst hye
+      refine ⟨_, hy, ⟨f1, f2, ?_, ?_, ?_, fun _ => f3, fun _ => f7, fun c' hc' => ?_, fun c' hc' => (by cases hc')⟩, rfl⟩
+      · rw [hss]; exact hl.single p c ss hss'
+      · rw [f5]; exact hl.ciTmat p tmv htmv
+      · rw [f6, shift_eq hl, hl.wip, hl.pip]
+      · simp only [Option.some.injEq] at hc'
+        subst hc'; exact hc
+    · rw [hp] at h3
+      obtain ⟨f1, f2, f3, f4, f5, f6, f7⟩ := core_eq h3
+      unfold instsOfArc at hi
+      simp only [hp, h2, if_true, Option.bind_eq_bind, Option.bind_eq_some_iff, Option.pure_def, Option.some.injEq] at hi
+      obtain ⟨ss, hss, tmv, htmv, hins⟩ := hi
+      subst hins
+      refine Or.inl ⟨_, List.mem_singleton.2 rfl, ⟨f1, f2, ?_, ?_, ?_, fun _ => f3, fun _ => (by rw [f7]; exact h.sil),
+        fun c' hc' => (by cases hc'), fun c' hc' => (by cases hc')⟩, rfl, rfl⟩
+      · rw [f4]; exact hl.ciSsid p ss hss
+      · rw [f5]; exact hl.ciTmat p tmv htmv
+      · rw [f6, shift_eq hl, hl.wip, hl.pip]
+  · obtain ⟨⟨r3, r4⟩, hint, l3, l4⟩ := hk1 hk
+    obtain ⟨p0, p1, rest, hp⟩ := pron_two (by omega : 2 ≤ w.pron.length)
+    rw [hp] at r3 r4 l3 l4 hint hlen
+    refine ⟨fun c hc => ?_, fun j hj1 hj2 => ?_, fun c hc => ?_⟩
+    · obtain ⟨f1, f2, f3, _, f5, f6, f7⟩ := core_eq r3
+      obtain ⟨hcl, hss⟩ := r4 c hc
+      obtain ⟨ss, tm0, hss', htm0, hmem⟩ := (multi_insts hp hi).1 c ((lc_iff h v.src c).1 hcl)
+      refine ⟨_, hmem, rfl, rfl, f1, f2, ?_, ?_, ?_, fun hc' => (by cases hc'), fun _ => f7, fun c' hc' => ?_, fun c' hc' => (by cases hc')⟩
+      · rw [hss]; exact hl.begin_ p0 c p1 ss hss'
+      · rw [f5]; exact hl.ciTmat p0 tm0 htm0
+      · rw [f6, hl.wip, hl.pip]
+      · simp only [Option.some.injEq] at hc'
+        subst hc'; exact hc
+    · obtain ⟨d1, d2, d3, d4⟩ := hint j hj1 hj2
+      obtain ⟨j', rfl⟩ : ∃ j', j = j' + 1 := ⟨j - 1, by omega⟩
+      obtain ⟨ss, tmv, hss, htmv, hmem⟩ := (multi_insts hp hi).2.1 j' (by omega)
+      refine ⟨_, hmem, rfl, rfl, rfl, (hown (j' + 1) (by omega)).2, d1, ?_, ?_, ?_, fun hc' => (by cases hc'),
+        fun hc' => (by rcases hc' with hc' | hc' <;> cases hc'), fun c' hc' => (by cases hc'), fun c' hc' => (by cases hc')⟩
+      · rw [d2]; exact hl.internal wid w j' ss hwd (by rw [hp]; exact hss)
+      · rw [d3]; exact hl.ciTmat _ tmv htmv
+      · rw [d4, hl.pip]
+    · obtain ⟨f1, f2, f3, _, f5, f6, f7⟩ := core_eq l3
+      obtain ⟨hcl, hss⟩ := l4 c hc
+      obtain ⟨ss, tml, hss', html, hmem⟩ := (multi_insts hp hi).2.2 c ((rc_iff h v.dstLt c).1 hcl)
+      refine ⟨_, hmem, rfl, rfl, f1, f2, ?_, ?_, ?_, fun _ => f3, fun _ => f7, fun c' hc' => (by cases hc'), fun c' hc' => ?_⟩
+      · rw [hss]; exact hl.final _ _ c ss hss'
+      · rw [f5]; exact hl.ciTmat _ tml html
+      · rw [f6, shift_eq hl, hl.pip]
+      · simp only [Option.some.injEq] at hc'
+        subst hc'; exact hc
+
+end Flat
 
 end SSVerif.LexFlat
